@@ -167,62 +167,84 @@ def run(ctx):
     P = "C03-R3"
     t = facts.one(r"LogRefEntry::insertable_reference_string$")
     if ctx.check(t is not None, P, "anchor|renderer", "insertable_reference_string found", ""):
+        from .. import dte
+        from ..common import tuple_field_src
         pushes = t.calls_to(r"String::push_str$|String::push$|String::insert_str$|String::insert$|::extend$|::write_str$|::write_fmt$")
-        ctx.check(all(c.matches(r"String::push_str$") for c in pushes) and len(pushes) == 4, P, "append-only", "the token is built by push_str only (%d appends)" % len(pushes), t.where())
-        isn = t.calls_to(r"Option::<.*>::is_none$")
-        fields = sorted(_field_of(t, c.args[0]) or "?" for c in isn)
-        ctx.check(fields == ["insertion_prefix", "insertion_suffix"], P, "plain-test", "the plain form is chosen iff prefix and suffix are both None (tests on: %s)" % fields, t.where())
-        # classify pushes
-        kinds = []
-        for c in pushes:
+        ctx.check(all(c.matches(r"String::push_str$") for c in pushes) and len(pushes) >= 3, P, "append-only", "the token is built by push_str only (%d appends)" % len(pushes), t.where())
+        tmpl = {}
+        for a_ in t.calls_to(r"fmt::Arguments::<.*>::new"):
+            tmpl[a_.dst["l"]] = template_of_call(a_)
+
+        def classify_push(c):
             ch, root = call_chain(t, c.args[1])
-            names = [x.name.split("::")[-1] for x in ch]
             fmt = [x for x in ch if x.matches(r"fmt::format$")]
             if fmt:
-                tm = None
-                for a in t.calls_to(r"fmt::Arguments::<.*>::new"):
-                    if a.dst["l"] == op_place(fmt[0].args[0])["l"]:
-                        tm = template_of_call(a)
-                kinds.append((c, "fmt", tm))
-            else:
-                kinds.append((c, "field", _field_through(t, c.args[1])))
-        plain = [k for k in kinds if k[1] == "fmt" and k[2] and len(k[2]) == 3]
-        num = [k for k in kinds if k[1] == "fmt" and k[2] and len(k[2]) == 1]
-        pre = [k for k in kinds if k[1] == "field" and k[2] == "insertion_prefix"]
-        suf = [k for k in kinds if k[1] == "field" and k[2] == "insertion_suffix"]
-        if ctx.check(len(plain) == 1 and len(num) == 1 and len(pre) == 1 and len(suf) == 1, P, "append-census", "appends: plain token, prefix, number, suffix (%d/%d/%d/%d)" % (len(plain), len(pre), len(num), len(suf)), t.where()):
-            ctx.check(plain[0][2] == [("lit", "[ref: "), ("arg", {"default": True, "byte": 192}), ("lit", "] ")], P, "plain-template", "plain token = `[ref: {}] ` (%s)" % plain[0][2], plain[0][0].where())
-            ctx.check(num[0][2] == [("arg", {"default": True, "byte": 192})], P, "number-template", "key-value token number = `{}` (%s)" % num[0][2], num[0][0].where())
-            # order prefix < number < suffix
-            dom = cfg.dominators(t)
-            o1 = cfg.path(t, num[0][0].bb, [pre[0][0].bb]) is None and cfg.path(t, suf[0][0].bb, [num[0][0].bb]) is None
-            ctx.check(o1, P, "append-order", "order of the key-value token: prefix, number, suffix", t.where())
-            # plain arm excludes the others
-            for c in isn:
-                pass
-            both = None
-            sws = []
-            for bb in sorted(t.reachable_blocks()):
-                tm_ = t.term(bb)
-                if tm_["k"] == "switch":
-                    k, pl, neg = trace_bool(t, tm_["discr"])
-                    if k == "call" and pl.matches(r"is_none$"):
-                        tt, ft = bool_switch_targets(t, bb)
-                        if neg:
-                            tt, ft = ft, tt
-                        sws.append((bb, tt, ft))
-            if ctx.check(len(sws) == 2, P, "plain-branches", "two is_none tests form the conjunction", t.where()):
-                pb = plain[0][0].bb
-                ok = all(tt in dom.get(pb, ()) for (_, tt, _) in sws)
-                ctx.check(ok, P, "plain-iff-both-none", "the plain token is produced only when both are None", t.where(pb))
-                ok2 = not any(k[0].bb in cfg.reach(t, [pb]) for k in (num[0], pre[0], suf[0])) and not any(pb in cfg.reach(t, [k[0].bb]) for k in (num[0], pre[0], suf[0]))
-                ctx.check(ok2, P, "plain-exclusive", "plain and key-value forms are mutually exclusive", t.where(pb))
+                tm = tmpl.get(op_place(fmt[0].args[0])["l"]) if op_place(fmt[0].args[0]) else None
+                if tm == [("lit", "[ref: "), ("arg", {"default": True, "byte": 192}), ("lit", "] ")]:
+                    return "plain"
+                if tm == [("arg", {"default": True, "byte": 192})]:
+                    return "number"
+                return "fmt?%s" % (tm,)
+            if any(x.matches(r"::to_string$") for x in ch) and root == ("param", 2):
+                return "number"
+            f_ = _field_through(t, c.args[1])
+            return {"insertion_prefix": "prefix", "insertion_suffix": "suffix"}.get(f_, "other:%s" % f_)
+
+        kinds = {c.bb: classify_push(c) for c in pushes}
+
+        def call_hook(c):
+            if c.matches(r"Option::<.*>::is_none$|Option::<.*>::is_some$") and c.args:
+                f_ = _field_of(t, c.args[0])
+                nm = {"insertion_prefix": "Pnone", "insertion_suffix": "Snone"}.get(f_)
+                if nm:
+                    return (nm, "bool", c.matches(r"is_none$"))
+            return None
+
+        def place_hook(body, place):
+            f_ = _field_of(body, {"copy": place})
+            nm = {"insertion_prefix": "Pnone", "insertion_suffix": "Snone"}.get(f_)
+            if nm:
+                return (nm, False)   # discriminant Some(=1) means NOT none
+            return None
+
+        def events(bb, x):
+            if isinstance(x, dict) and x.get("k") == "call" and bb in kinds:
+                return kinds[bb]
+            return None
+
+        rows = dte.extract(t, 0, set(), dte.Atoms([], call_hook, place_hook), events=events)
+        table = {}
+        opaque = set()
+        for asg, evs, out in rows:
+            for k in asg:
+                if k not in ("Pnone", "Snone"):
+                    opaque.add(k)
+            for pn in (True, False):
+                for sn in (True, False):
+                    if asg.get("Pnone", pn) == pn and asg.get("Snone", sn) == sn:
+                        table.setdefault((pn, sn), set()).add(tuple(e for e in evs if not e.startswith("<")))
+        ctx.check(not opaque, P, "plain-test", "the form is chosen by `prefix is None` / `suffix is None` only (other conditions: %s)" % (sorted(opaque) or "none"), t.where())
+        want = {
+            (True, True): {("plain",)},
+            (True, False): {("number", "suffix")},
+            (False, True): {("prefix", "number")},
+            (False, False): {("prefix", "number", "suffix")},
+        }
+        for key, exp in want.items():
+            got = table.get(key, set())
+            ctx.check(got == exp, P, "token-table|Pnone=%s,Snone=%s" % key,
+                      "prefix %s, suffix %s ⇒ appends %s (found %s)" % ("None" if key[0] else "Some", "None" if key[1] else "Some", sorted(exp), sorted(got)), t.where())
         disp = t.calls_to(r"Argument::<.*>::new_")
-        ctx.check(all("new_display::<u32>" in d.full for d in disp) and len(disp) == 2, P, "number-display", "the number is the `reference_id` argument rendered with Display", t.where())
+        ctx.check(all("new_display::<u32>" in d.full for d in disp) and len(disp) >= 1, P, "number-display", "the number is the `reference_id` argument rendered with Display", t.where())
         for d in disp:
-            from ..common import tuple_field_src
             ch, root = call_chain(t, tuple_field_src(t, d.args[0]))
             ctx.check(root == ("param", 2), P, "number-source|%s" % d.bb, "the rendered number is the reference_id parameter", d.where())
+        # the returned String is the buffer the pushes went to
+        for (rb, rst) in return_values(t):
+            if rst["rv"]["k"] == "use":
+                pl = op_place(rst["rv"]["op"])
+                bufs = {_base_local_of(t, c.args[0]) for c in pushes}
+                ctx.check(pl is not None and (pl["l"] in bufs), P, "returns-buffer", "the function returns the buffer it appended to", t.where(rb))
     # prefix/suffix are only set in the structured-new branch
     f = facts.one(r"rust_log_ref_finder::find$")
     if f is not None:
@@ -253,6 +275,11 @@ def run(ctx):
                        "token per iteration, guarded tail copy to len(), then rename; decision table and templates of the token renderer.",
         "trusted": ["rustc MIR", "write_all contract"],
     }
+
+
+def _base_local_of(body, op):
+    from ..common import _base_local
+    return _base_local(body, op)
 
 
 def _describe_rv(body, rv):
